@@ -2,6 +2,7 @@
 From Coq Require Import ZArith Reals Floats Lra Lia Bool List Sorted.
 From Flocq Require Import Core.Core IEEE754.BinarySingleNaN IEEE754.PrimFloat.
 From Geo Require Import Base.GoPrim Base.F64 Gen.Approx Model.Approx.
+From Geo Require Import Gen.CellIDFull.  (* s2_xyzToFaceUV *)
 Import ListNotations.
 
 (** * 1. Go's [==] on points: symmetric and transitive where it holds *)
